@@ -19,8 +19,10 @@ ASSUMPTIONS = ["premise pc_size_agrees (naga TypeInner::size = Layouter size) ev
 
 PC_TYPES = [("f32", 4), ("u32", 4), ("vec2<f32>", 8), ("vec3<f32>", 12), ("vec4<f32>", 16), ("mat2x2<f32>", 16),
             ("mat3x3<f32>", 48), ("mat4x4<f32>", 64), ("US", 32), ("PS", 16), ("array<vec4<f32>, 3>", 48),
-            ("array<f32, 5>", 20), ("PS2", 48)]
-EXTRA = "struct PS { a: vec3<f32>, b: f32 }\nstruct PS2 { a: f32, b: vec3<f32>, c: array<vec2<f32>, 2> }\n"
+            ("array<f32, 5>", 20), ("PS2", 48), ("array<vec3<f32>, 4>", 64), ("array<array<vec3<u32>, 2>, 2>", 64),
+            ("array<mat3x3<f32>, 2>", 96), ("array<PS, 2>", 32), ("mat2x3<f32>", 32), ("mat4x3<f32>", 64), ("PS3", 80)]
+EXTRA = ("struct PS { a: vec3<f32>, b: f32 }\nstruct PS2 { a: f32, b: vec3<f32>, c: array<vec2<f32>, 2> }\n"
+         "struct PS3 { a: array<vec3<f32>, 4>, b: f32 }\n")
 
 
 def cases(rng, tier):
@@ -28,7 +30,11 @@ def cases(rng, tier):
     out = []
     for i in range(n):
         has_pc = i % 4 != 0
-        p = W.random_program(rng, pc=has_pc, n_globals=rng.randint(0, 3))
+        if i % 6 == 1:
+            p = W.diamond_program(rng, "pc")
+        else:
+            p = W.random_program(rng, pc=has_pc, n_globals=rng.randint(0, 3))
+        has_pc = p.push_constant is not None
         truth = None
         if has_pc:
             ty, size = rng.choice(PC_TYPES)
